@@ -94,8 +94,9 @@ def c04a(ctx):
     ok = bool(stores)
     for s in stores:
         a = s.args[0]
+        tv = unparse(a.generators[0].target) if isinstance(a, ast.ListComp) and len(a.generators) == 1 else '?'
         ok = ok and isinstance(a, ast.ListComp) and len(a.generators) == 1 and unparse(a.generators[0].iter) == 'tiles' and \
-            [unparse(i) for i in a.generators[0].ifs] == ['t.cacheable'] and unparse(a.elt) == 't'
+            [unparse(i) for i in a.generators[0].ifs] == [tv + '.cacheable'] and unparse(a.elt) == tv
     ctx.check(ok, 'TileCreator._create_bulk_meta_tile:stores-all-cacheable', 'every collected tile that is cacheable is stored', fb,
               fail='the bulk creator does not store all cacheable tiles it fetched')
     fbdefs = Defs(fb.node)
